@@ -60,6 +60,11 @@ KNOWN_WHAT = {
     "directive-errors-unfilterable":
         "invalid-directive / late-directive errors are logged while the Director is being constructed, before "
         "ErrorLog.set_error_filter is called, so no directive on their line can silence them",
+    "type-ignore-skips-import":
+        "'# type: ignore' on a line that holds an import statement makes the VM skip the import "
+        "(vm.byte_IMPORT_NAME / byte_IMPORT_FROM test op.line in director.ignore): the imported names become Any, so "
+        "the inferred stub (and possibly errors depending on those names) changes; documented meaning of type: ignore "
+        "on imports",
     "trailing-enable-later-line":
         "a trailing '# pytype: enable=E' on a later line of the same statement writes the statement's start line "
         "and undoes a trailing disable=E placed on that start line",
@@ -396,7 +401,7 @@ import re as _re
 M_IGNORE_RE = _re.compile(r"^ignore(\[.+\])?$")    # parser.IGNORE_RE (monitor/classification only)
 
 
-def classify_e2e(ed, info, before, after, groups_new, table, live, dropped=(), fn_ends=()):
+def classify_e2e(ed, info, before, after, groups_new, table, live, dropped=(), fn_ends=(), src_new=None):
   """before/after: (errs, pyi).  Returns list of (fingerprint, detail)."""
   k = ed["kind"]
   L = info["L"]
@@ -474,6 +479,22 @@ def classify_e2e(ed, info, before, after, groups_new, table, live, dropped=(), f
     extra = [t for t in extra if t not in drop]
     out.append(("call-range-drops-earlier-comment-lines",
                 f"changed: {[t[:2] for t in drop][:3]}: a call range lost the directive of an earlier line"))
+  # '# type: ignore' covering a line of an import statement: the VM skips that import (names become Any)
+  import_ignored = False
+  if k in ("ignore", "signore") and src_new is not None:
+    ignored = ({L} | set(starts)) if k == "ignore" else None     # None = every line >= L
+    try:
+      for node in ast.walk(ast.parse(src_new)):
+        if isinstance(node, (ast.Import, ast.ImportFrom)):
+          lines_of = range(node.lineno, node.end_lineno + 1)
+          if (ignored is None and node.end_lineno >= L) or (ignored is not None and any(l in ignored for l in lines_of)):
+            import_ignored = True
+    except SyntaxError:
+      pass
+  if import_ignored and (missing or extra or before[1] != after[1]):
+    out.append(("type-ignore-skips-import",
+                f"stub changed={before[1] != after[1]}, missing={[t[:2] for t in missing][:3]} extra={[t[:2] for t in extra][:3]}"))
+    return out
   if missing or extra:
     out.append(("e2e-other-errors-changed", f"missing={[t[:2] for t in missing][:3]} extra={[t[:2] for t in extra][:3]}"))
   if before[1] != after[1]:
@@ -550,7 +571,7 @@ def e2e_deviations(src, disable, ed, table, live):
   groups_new, _, _, _ = M.real_parse(new)
   groups_ref, fr_ref, _, _ = M.real_parse(ref)
   return classify_e2e(ed, info, b, a, groups_new, table, live, dropped_events(groups_ref, groups_new),
-                      {e for _, e in fr_ref})
+                      {e for _, e in fr_ref}, src_new=new)
 
 
 def query_names(ref, new, ed, table):
